@@ -118,6 +118,8 @@ func c35RunInner(in c35Input) (res c35Inner) {
 			c35Peers(in, rec)
 		case "transmit":
 			c35Transmit(in, rec)
+		case "router":
+			c35Router(in, rec)
 		}
 		done <- ""
 	}()
